@@ -33,19 +33,21 @@ def main():
             rec["dupfiles"].append(len(items) - len({(p, n) for p, n, _ in items}))
             rec["api"].append(snap())
             if k == 0:
+                shown = {}      # the classes may live in different files
                 for p, n, t in items:
                     ast, _ = sds.try_parse(t)
                     if ast is None:
                         continue
-                    shown = {}
                     for d in ast.members:
-                        if d.kind == "class" and d.pyname in ("SubA", "SubB", "SubC", "SubD"):
+                        if d.kind == "class" and d.pyname in ("SubA", "SubB", "SubC", "SubD", "GenA", "GenB", "GenC"):
                             for m in d.members:
-                                if m.pyname == "shared":      # parameters and the markers in front of the member
-                                    shown[d.pyname] = json.dumps([[[q["pyname"], q["type"], q["default"]] for q in m.params], sorted(m.todos)], sort_keys=True)
-                    for other in sorted(shown):
-                        if other != "SubA" and "SubA" in shown:
-                            rec["same"].append({"a": shown["SubA"], "b": shown[other]})
+                                if m.pyname in ("shared", "gshared"):      # type parameters, parameters, results and the markers in front of the member
+                                    shown[d.pyname] = json.dumps([m.typeparams, [[q["pyname"], q["type"], q["default"]] for q in m.params],
+                                                                  [[q.get("type")] for q in m.results], sorted(m.todos)], sort_keys=True, default=str)
+                for first, rest in (("SubA", ("SubB", "SubC", "SubD")), ("GenA", ("GenB", "GenC"))):
+                    for other in rest:
+                        if other in shown and first in shown:
+                            rec["same"].append({"a": shown[first], "b": shown[other]})
     except Exception as e:  # noqa: BLE001
         import traceback
         rec["error"] = f"{type(e).__name__}: {e} :: {traceback.format_exc()[-600:]}"
